@@ -55,6 +55,11 @@ func setupPrefix(args ...string) (handler.Handler6, error) {
 	if err != nil {
 		return nil, fmt.Errorf("Invalid pool subnet: %v", err)
 	}
+	if prefix.IP.To4() != nil {
+		// An IPv4 subnet has a 32-bit mask, which makes the pool look 2^96 times
+		// larger than it is (and the process run out of memory)
+		return nil, fmt.Errorf("Invalid pool subnet: %v is not an IPv6 prefix", prefix)
+	}
 
 	allocSize, err := strconv.Atoi(args[1])
 	if err != nil || allocSize > 128 || allocSize < 0 {
